@@ -8,7 +8,15 @@ ERR = {"locked": "ELocked", "watching": "EWatching", "addr_not_found": "EAddrNot
        "other": "EOther", "panic": "EPanic"}
 
 NONTRIVIAL_TAGS = {"probe_extended_address", "probe_created_locked_then_unlocked", "probe_after_restart",
-                   "imported_account_address", "derive_locked", "recreated_compared"}
+                   "imported_account_address", "derive_locked", "recreated_compared", "derive_hardened_derived",
+                   "importkey_uncompressed", "importscript_public", "chpubpass"}
+NONTRIVIAL_PREFIXES = ("divergent_step_exercised:", "importpub:", "importscript:")
+SKIND = {"": 0, None: 0, "wsh": 1, "tr": 2}
+
+
+def script_no(ident, skind):
+    """the model's script number names the script bytes AND the kind of address"""
+    return ident * 4 + SKIND[skind]
 
 
 def n(x):
@@ -24,7 +32,8 @@ def schema(s):
 
 
 def skey(root, ident, cn, path):
-    r = {"seed": "RSeed %s" % n(ident), "xpub": "RXpub %s %s" % (n(ident), n(cn)), "imp": "RImp %s" % n(ident)}[root]
+    r = {"seed": "RSeed %s" % n(ident), "xpub": "RXpub %s %s" % (n(ident), n(cn)), "imp": "RImp %s" % n(ident),
+         "imppub": "RImpPub %s" % n(ident)}[root]
     return "(mkKey (%s) %s)" % (r, clist(["(%s, %s)" % (n(i), cbool(bool(h))) for i, h in path]))
 
 
@@ -39,16 +48,21 @@ def dpath(p):
     return "(mkPath %s %s %s %s %s)" % tuple(n(x) for x in p)
 
 
+def raw_step(x):
+    """raw uint32 child number -> (index, hardened)"""
+    return (x - 2 ** 31, 1) if x >= 2 ** 31 else (x, 0)
+
+
 def target(seed, o):
     """the symbolic address of a lookup / markused"""
     if o["root"] == "script":
-        return "(AScriptHash %s)" % n(o["script"])
-    if o["root"] == "imp":
-        k = skey("imp", o["key"], 0, [])
+        return "(AScriptHash %s)" % n(script_no(o["script"], o.get("skind")))
+    if o["root"] in ("imp", "imppub"):
+        k = skey(o["root"], o["key"], 0, [])
     elif o["root"] == "xpub":
-        k = skey("xpub", o["xpub"], o["cn"], [(o["branch"], 0), (o["index"], 0)])
+        k = skey("xpub", o["xpub"], o["cn"], [raw_step(o["branch"]), raw_step(o["index"])])
     else:
-        k = skey("seed", seed, 0, [(o["scope"][0], 1), (o["scope"][1], 1), (o["account"], 1), (o["branch"], 0), (o["index"], 0)])
+        k = skey("seed", seed, 0, [(o["scope"][0], 1), (o["scope"][1], 1), (o["account"], 1), raw_step(o["branch"]), raw_step(o["index"])])
     return "(AKey %s (Pub %s))" % (FMT[o["fmt"]], k)
 
 
@@ -62,6 +76,12 @@ def r_op(seed, o):
         return "OLock"
     if k == "chpass":
         return "OChangePass %s %s" % (n(o["pass"]), n(o["newpass"]))
+    if k == "chpubpass":
+        return "OChangePubPass %s %s" % (n(o["pass"]), n(o["newpass"]))
+    if k == "importpub":
+        return "OImportPub %s %s" % (scope(o["scope"]), n(o["key"]))
+    if k == "importwscript":
+        return "OImportScript %s %s %s" % (scope(o["scope"]), n(script_no(o["script"], o.get("skind"))), cbool(bool(o.get("secret"))))
     if k == "newscope":
         return "ONewScope %s %s" % (scope(o["scope"]), schema(o["schema"]))
     if k == "newacct":
@@ -83,7 +103,7 @@ def r_op(seed, o):
     if k == "importkey":
         return "OImportKey %s %s" % (scope(o["scope"]), n(o["key"]))
     if k == "importscript":
-        return "OImportScript %s %s" % (scope(o["scope"]), n(o["script"]))
+        return "OImportScript %s %s true" % (scope(o["scope"]), n(script_no(o["script"], "")))
     if k == "props":
         return "OProps %s %s" % (scope(o["scope"]), n(o["account"]))
     if k == "priv":
@@ -105,7 +125,7 @@ def r_addr(a):
     if a["kind"] == "script":
         v = a["scriptv"]
         sv = "ISOk" if v == "ok" else ("ISChanged" if v == "changed" else "(ISErr %s)" % ERR[v.split(":", 1)[1]])
-        return "IScr %s %s" % (copt(n(a["script"]) if a["script"] >= 0 else None), sv)
+        return "IScr %s %s" % (copt(n(script_no(a["script"], a.get("skind"))) if a["script"] >= 0 else None), sv)
     k = keyref(a["key"])
     return ("IKey (mkIInfo %s %s %s %s %s %s %s %s %s)" % (
         scope(a["dscope"]), dpath(a["dpath"]), cbool(a["known"]), n(a["iacct"]),
@@ -129,57 +149,96 @@ def r_out(o):
         kk = keyref(o.get("key"))
         return "IKeyOut %s" % copt("(Priv %s)" % kk if kk else None)
     if k == "script":
-        return "IScriptOut %s" % copt(n(o["script"]) if o["script"] >= 0 else None)
+        return "IScriptOut %s" % copt(n(script_no(o["script"], o.get("skind"))) if o["script"] >= 0 else None)
     raise ValueError("result " + k)
 
 
 def r_case(c):
     i = c["in"]
-    rows = ["\n   (%s,\n    %s)" % (r_op(i["seed"], o), r_out(r)) for o, r in zip(i["ops"], c["obs"])]
+    # an operation the harness did not run (kind "skipped": a count of millions that the
+    # wallet would have accepted) happened neither in the implementation nor in the model
+    rows = ["\n   (%s,\n    %s)" % (r_op(i["seed"], o), r_out(r)) for o, r in zip(i["ops"], c["obs"]) if r["kind"] != "skipped"]
     return "mkCase %s %s %s" % (n(i["seed"]), n(i["pass"]), clist(rows))
 
 
 class C03(Check):
     ID = "C03"
-    RULE = ("the real waddrmgr (Create with a chosen seed, Open, over a bbolt file) driven through 9 scripted situations and random histories of "
-            "10..45 operations over 5 seeds (24 in the thorough tier), the four default key scopes plus a custom scope, accounts 0..4 and "
-            "imported xpub accounts with and without a schema override: Next{External,Internal}Addresses, Extend*, Manager.Address of issued "
-            "and not-issued addresses, DeriveFromKeyPath(Cache), MarkUsed, Lock/Unlock (right and wrong passphrase), ChangePassphrase, "
-            "NewAccount, NewAccountWatchingOnly, NewScopedKeyManager, ImportPrivateKey, ImportScript, restart; every returned address, public "
-            "and private key is mapped to a derivation path by the independent oracle (own BIP32 + legacy hardened rule + address encoders) "
-            "and PrivKey()/DerivationInfo()/Internal()/InternalAccount() are read after every operation; every 4th history is followed by a "
-            "wallet re-created from the same seed.  non-trivial = the history probed a private key of an address that was extended, created "
-            "while locked and unlocked later, or reloaded after a restart, or issued an imported-account address, or was compared with a "
-            "re-created wallet; distinct by input")
+    RULE = ("the real waddrmgr (Create with a chosen seed, Open, over a bbolt file) driven through 16 scripted situations, the corpus "
+            "(corpus/C03: one fixed history per hardened derivation step on 24 seeds with a leading-zero parent key at the master / purpose / "
+            "coin-type / account / branch level, plus the witnesses of the repaired defects) and random histories of 10..45 operations over 5 "
+            "random seeds + 3 of the leading-zero seeds per run (24 + all in the thorough tier), the four default key scopes plus a custom "
+            "scope, accounts 0..4 and imported xpub accounts with and without a schema override: Next{External,Internal}Addresses (incl. "
+            "count 0 and counts beyond MaxAddressesPerAccount), Extend*, Manager.Address of issued and not-issued addresses, "
+            "DeriveFromKeyPath(Cache) incl. hardened branch/index requests, MarkUsed, Lock/Unlock (right and wrong passphrase), "
+            "ChangePassphrase private and public (followed by restart and re-derivation), NewAccount, NewAccountWatchingOnly, "
+            "NewScopedKeyManager, ImportPrivateKey (compressed and uncompressed WIF), ImportPublicKey (every address type), ImportScript, "
+            "ImportWitnessScript, ImportTaprootScript (secret and public), restart.  ORACLE: for the REQUEST (scope, account, branch, index) "
+            "harness/internal/hdoracle derives the key the specification assigns to it (own BIP32; the rule of every hardened step from the "
+            "table in spec.go, exactly one key per path - a key made with the other rule is a violation, wrong_hardened_rule) and compares "
+            "address, format, public key, reported DerivationInfo/Internal/InternalAccount; every private key the wallet returns is checked "
+            "to be that key's private key, to have PubKey() as its public key (computed by the oracle) and to encode to Address() in the "
+            "reported address type (P2PKH/NP2WKH/P2WKH/BIP86 P2TR); every 4th history (every corpus history) is followed by a SECOND wallet "
+            "created from the same seed with other passphrases and creation time, whose addresses are compared one by one with the oracle's "
+            "and the first wallet's.  non-trivial = the history probed a private key of an address that was extended, created while locked "
+            "and unlocked later, or reloaded after a restart, issued an imported-account address, was compared with a re-created wallet, "
+            "walked a hardened step below a leading-zero parent, derived a hardened branch/index, or imported a public key / uncompressed "
+            "WIF / witness or taproot script; distinct by input")
     N_QUICK = 200
     N_THOROUGH = 1500
     SHARD = 40
     ASSUMPTIONS = [
         "keys are symbolic (root + path); the BIP32 law pub(CKDpriv(k,i)) = CKDpub(pub(k),i) for unhardened i holds by construction; "
         "which bytes a path denotes is decided by the harness' independent oracle, not by a theorem",
+        "a name denotes the key the SPECIFICATION assigns to the path (Keys.spec_rule = hdoracle.WalletRule: purpose step BIP32, coin step "
+        "legacy, account 0 legacy, later accounts BIP32, hardened branch BIP32, hardened index legacy); the model tracks the width at which "
+        "hdkeychain holds each parent key and leaves the key tree when a hardened step is made with another rule (worst case: every key may "
+        "have a leading zero byte); the per-step theorems hold for every assignment of leading zeros (parameter lz of Keys.ckd)",
+        "an imported key number names the WIF (scalar + compressed flag), a script number the script bytes together with the kind of address",
         "invalid BIP32 children (probability 2^-127 per step) are not modelled",
         "every operation commits its database transaction; the manager is created from a seed (never watching-only at the root)",
+        "which legitimate error class a REFUSED operation carries is not compared (MgrCorr.refusal_match; a crash only matches a crash); the "
+        "classes of PrivKey()/Script() are",
         "Generated.AddrFacts.extend_derives_private_when_unlocked = true is a premise of the private-key theorems (discharged by eq_refl "
         "against the current source; false at the pinned commit, see C03_refuted_when_false)",
     ]
-    EXTRA_TRUSTED = ["harness/internal/hdoracle (independent BIP32 + address encoders; secp256k1 group operations from btcec)",
+    EXTRA_TRUSTED = ["harness/internal/hdoracle (independent BIP32, the rule table of spec.go, address encoders incl. BIP341 tweak and leaf hash; "
+                     "secp256k1 group operations from btcec)",
                      "lib/extract_c03.py: the three source facts are read off the shape of scoped_manager.go / manager.go (original and "
-                     "syntactically equivalent shapes); a fact whose shape is not recognised is determined by running its witness "
-                     "scenarios on the waddrmgr built from the repository (harness/cmd/extract-c03: extend x {locked,unlocked} x "
-                     "{seed,imported} account; first account of a new custom scope; DeriveFromKeyPathCache on a cached imported "
-                     "account); evidence field facts_source says which path ran"]
+                     "syntactically equivalent shapes; new_scope_stores_last_account only when putLastAccount(ns, &scope, DefaultAccountNum) "
+                     "is a top-level statement on the success path whose error is returned); a fact whose shape is not recognised is "
+                     "determined by running its witness scenarios on the waddrmgr built from the repository (harness/cmd/extract-c03: "
+                     "extend x {locked,unlocked} x {seed,imported} account; first account of a new custom scope; DeriveFromKeyPathCache "
+                     "on a cached imported account); evidence field facts_source says which path ran"]
     PARTIAL_CLAUSES = [
-        "'hierarchical derivation from the wallet's seed yields ...' in bytes (HMAC-SHA512, secp256k1, legacy hardened rule): exercised "
-        "through the oracle on every returned key, not a Coq theorem",
-        "address encodings (base58check, bech32/bech32m, BIP86 tweak): exercised through independent encoders",
+        "'hierarchical derivation from the wallet's seed yields ...' in bytes (HMAC-SHA512, secp256k1): exercised through the oracle on "
+        "every returned key, not a Coq theorem; that every hardened step uses the specified one of the two rules IS a theorem about the "
+        "model (C03_rule_*_step, C03_account_keys, C03_create_scope_keys) and is exercised on seeds where the rules differ",
+        "address encodings (base58check, bech32/bech32m, BIP86 tweak, P2WSH, taproot script tree): exercised through independent encoders",
+        "'the wallet can sign for it': the returned private key is checked (oracle) to be the key of the public key and of the address "
+        "in the reported format; no signature is produced",
     ]
 
     def gen_args(self, tier, seed):
         nn = self.N_QUICK if tier == "quick" else self.N_THOROUGH
-        return [["c03", "-n", str(nn), "-seed", str(seed), "-tier", tier]]
+        args = [["c03", "-n", str(nn), "-seed", str(seed), "-tier", tier]]
+        # the corpus (seeds on which the two hardened-derivation rules differ, one history per
+        # hardened step; the witnesses of the repaired defects) is replayed on every run
+        corpus = os.path.join(VERIF, "corpus", "C03")
+        if os.path.isdir(corpus):
+            p = os.path.join(WORK, "corpus_C03.jsonl")
+            os.makedirs(WORK, exist_ok=True)
+            with open(p, "w") as out:
+                for f in sorted(os.listdir(corpus)):
+                    if f.endswith(".jsonl"):
+                        for line in open(os.path.join(corpus, f)):
+                            if line.strip():
+                                out.write(json.dumps({"in": json.loads(line)["in"]}) + "\n")
+            args.append(["c03", "-replay", p])
+        return args
 
     def nontrivial(self, c):
-        return bool(NONTRIVIAL_TAGS & set(c.get("tags", [])))
+        tags = c.get("tags", [])
+        return bool(NONTRIVIAL_TAGS & set(tags)) or any(t.startswith(NONTRIVIAL_PREFIXES) for t in tags)
 
     def sample(self, c):
         return dict(seed=c["in"]["seed"], ops=c["in"]["ops"][:12], n_ops=len(c["in"]["ops"]), tags=c.get("tags"),
@@ -261,7 +320,10 @@ Print where_.
             os.makedirs(os.path.dirname(p), exist_ok=True)
             with open(p, "w") as f:
                 f.write(json.dumps({"in": inp}) + "\n")
-            rc, cs, err = run_vh(["c03", "-replay", p], timeout=120)
+            try:
+                rc, cs, err = run_vh(["c03", "-replay", p], timeout=120)
+            except Exception:       # a candidate that does not finish is not a smaller witness
+                return None
             if rc == 0 and cs and kind in cs[0].get("oracle", []):
                 return cs[0]
             return None
